@@ -24,6 +24,12 @@ CATS = ["syntax", "Runtime", "runtime", "instructor", "algorithmic", "specificat
 PRIOS = [None, None, "high", "medium", "low", "highest", "lowest", "syntax", "student", "parser", "analyzer",
          "verifier", "instructor", "junk", "Runtime", "HIGH", "Low", "positive", "uncategorized"]
 KINDS = [None, "Mistake", "Compliment", "Instructional", "Result", "Hint"]
+try:      # every kind the tree under test defines (so that a kind that starts to be treated specially is exercised)
+    from pedal.core.feedback_category import FeedbackKind as _FK
+    KINDS += sorted({v for k, v in vars(_FK).items() if k.isupper() and isinstance(v, str)} - set(KINDS))
+except Exception:  # noqa
+    pass
+KINDS += ["compliment", "COMPLIMENT", "Other"]
 LABELS = ["a", "b", "C", "set_correct_no_errors", "Feedback", "MissingDocstring", ""]
 FIELDSETS = [{}, {}, {'k': 1}, {'k': 2, 'j': 1}, {'k': 'v'}, {'j': 1}]
 SCORES_GRID = [None, None, None, 0.25, 0.5, 1, 0, -0.25, "+10%", "10%", "-10%", "+5", "5", "-1", ".5", "+0.5",
@@ -102,6 +108,10 @@ def gen_case(rng, *, max_fb=5, malformed=False, score_rate=0.4, offgrid=False):
         case["sup_at"] = [rng.randint(0, len(fbs)) for _ in sups]      # number of feedbacks created before this call
     if rng.random() < 0.2:
         case["own_report"] = True
+    # history: the report is resolved once BEFORE it is complete (an instructor printing a preliminary result);
+    # the final resolve() must still account for every feedback, old and new
+    if fbs and rng.random() < 0.12:
+        case["early_resolve_at"] = rng.randint(0, len(fbs))
     # A/B pools: one pool, so it is always the chosen one; its per-class overrides are applied to every feedback
     # object by report.finalize_feedbacks() at the start of resolve() and must be what merge() then reads
     if fbs and rng.random() < 0.15:
@@ -136,8 +146,11 @@ def build(case):
         for (c, l, f), at in zip(case["sups"], sup_at):
             if at == n_created:
                 suppress(c, l, dict(f) if f is not None else None, **rk)
+    early = case.get("early_resolve_at")
     for i, (ctor, kw) in enumerate(case["fbs"]):
         do_sups(i)
+        if early == i:
+            _early_resolve(own)
         kw = dict(kw)
         kw.update(rk)
         if 'fields' in kw:
@@ -151,6 +164,8 @@ def build(case):
         else:
             objs.append(CTORS[ctor](**kw))
     do_sups(len(case["fbs"]))
+    if early == len(case["fbs"]):
+        _early_resolve(own)
     pool = case.get("pool")
     if pool:
         set_pools(1, **rk)
@@ -159,6 +174,13 @@ def build(case):
 
 
 build.report = None
+
+
+def _early_resolve(own):
+    try:
+        simple.resolve(own) if own is not None else simple.resolve()
+    except Exception:  # noqa: raising is judged on the final resolve
+        pass
 
 
 def score_hundredths(x):
